@@ -5,7 +5,7 @@ P="$1"; PROP="$2"; shift 2
 WT=$(mktemp -d /tmp/trysd.XXXXXX)
 git -C /repo worktree add -q --detach "$WT" HEAD || exit 9
 ( cd "$WT" && (git apply "$P" 2>/dev/null || git apply -3 "$P" 2>/dev/null) ) || { echo "PATCH DOES NOT APPLY"; git -C /repo worktree remove --force "$WT"; exit 9; }
-( cd /verif && VERIF_REPO="$WT" ./check "$PROP" "$@" 2>/dev/null | cut -c1-400 )
+( cd "${VERIF_DIR:-/verif}" && VERIF_REPO="$WT" ./check "$PROP" "$@" 2>/dev/null | cut -c1-400 )
 rc=$?
 git -C /repo worktree remove --force "$WT"
 exit $rc
